@@ -553,15 +553,20 @@ func (s *InMemoryStore) ListConsumerOffsets(ctx context.Context) ([]ConsumerOffs
 }
 
 func parseConsumerKey(key string) (string, string, int32, bool) {
-	parts := strings.Split(key, ":")
-	if len(parts) != 3 {
+	// Split from the right: group ids may contain ':', topic names and partitions cannot.
+	pi := strings.LastIndex(key, ":")
+	if pi < 0 {
 		return "", "", 0, false
 	}
-	partition, err := strconv.ParseInt(parts[2], 10, 32)
+	ti := strings.LastIndex(key[:pi], ":")
+	if ti < 0 {
+		return "", "", 0, false
+	}
+	partition, err := strconv.ParseInt(key[pi+1:], 10, 32)
 	if err != nil {
 		return "", "", 0, false
 	}
-	return parts[0], parts[1], int32(partition), true
+	return key[:ti], key[ti+1 : pi], int32(partition), true
 }
 
 // PutConsumerGroup implements Store.PutConsumerGroup.
